@@ -8,6 +8,6 @@ if marker in s:
     s=s[:s.index(marker)]
 head=open('/verif/tools/design11_head.md').read()
 table=subprocess.run(['python3','/verif/tools/seeded_table.py'],capture_output=True,text=True).stdout
-s=s.rstrip('\n')+'\n'+head.rstrip('\n')+"\n\n### 11.3 The changes\n\n'caught by' lists every check that reported a VIOLATION for the change (quick tier, default seed, final machinery).\n\n"+table
+s=s.rstrip('\n')+'\n'+head.rstrip('\n')+"\n\n### 11.4 The changes\n\n'caught by' lists every check that reported a VIOLATION for the change (quick tier, default seed, final machinery).\n\n"+table
 open(p,'w').write(s)
 print("section 11 rebuilt")
